@@ -297,37 +297,24 @@ func rulesDNATo2Bit(c *Ctx, r *Report, ntoiFn *ssa.Function) {
 		r.violated("MOD4", where, "modulus", c.pos(remV.Pos()), "bases are grouped by "+fmt.Sprint(m)+", want 4 per byte")
 		return
 	}
-	// index variable: rem.X must be the range index of src
-	a := &vsa{c: c, f: f, dom: []int64{0, 1, 2, 3}, input: remV, entry: remV.Block(),
-		sliceTab: map[*ssa.Global][]int64{}, mapKeys: map[*ssa.Global]map[int64]bool{}, mapVals: map[*ssa.Global]map[int64]int64{}}
-	// region: the block of the remainder up to (not including) the blocks after the append decision; evaluate
-	// only the shift value and the append-branch condition, both of which live in remV's block and its successors.
-	a.region = map[*ssa.BasicBlock]bool{remV.Block(): true}
-	a.run()
-	if a.err != "" {
-		r.undecided("MOD4", where, "residues", c.pos(remV.Pos()), a.err)
-		return
-	}
+	// the shift amount and the append decision as functions of i % 4, evaluated for the four residues on their
+	// symbolic expressions (so a position helper, a local or a reordered formula make no difference)
+	remKey := rems[0].String()
 	var shifts []string
 	okShift := true
-	for k := 0; k < 4; k++ {
-		v := a.vals[shl.Y]
-		if v == nil || !v[k].ok {
-			if cv, ok := shl.Y.(*ssa.Convert); ok {
-				v = a.vals[cv.X]
-			}
-		}
-		if v == nil || !v[k].ok {
-			r.undecided("MOD4", where, "residues", c.pos(shl.Pos()), "shift amount is not computed from i%4 by constants within one block")
+	for k := int64(0); k < 4; k++ {
+		v, ok := evalSymInt(shiftSym, map[string]int64{remKey: k})
+		if !ok {
+			r.undecided("MOD4", where, "residues", c.pos(shl.Pos()), "shift amount is not computed from i%4 by constants: "+shiftSym.String())
 			return
 		}
-		shifts = append(shifts, fmt.Sprint(v[k].v))
-		if v[k].v != int64(6-2*k) {
+		shifts = append(shifts, fmt.Sprint(v))
+		if v != 6-2*k {
 			okShift = false
 		}
 	}
 	r.check(okShift, "MOD4", where, "shift table", c.pos(shl.Pos()), "shift is 6,4,2,0 for i mod 4 = 0,1,2,3: the first base of each group goes to the most significant bits", "shift for i mod 4 = 0,1,2,3 is "+strings.Join(shifts, ",")+", want 6,4,2,0")
-	// append edge: the exit edge taken per residue; the successor that contains the append of a zero byte
+	// append edge: the block that appends a zero byte, and the condition that controls it
 	var appendBlk *ssa.BasicBlock
 	for _, b := range f.Blocks {
 		for _, in := range b.Instrs {
@@ -342,11 +329,28 @@ func rulesDNATo2Bit(c *Ctx, r *Report, ntoiFn *ssa.Function) {
 		r.undecided("MOD4", where, "append", c.pos(f.Pos()), "no append found")
 		return
 	}
+	var ctl *ssa.BasicBlock
+	if len(appendBlk.Preds) == 1 {
+		ctl = appendBlk.Preds[0]
+	}
+	var ctlIf *ssa.If
+	if ctl != nil {
+		ctlIf, _ = lastInstr(ctl).(*ssa.If)
+	}
+	if ctlIf == nil {
+		r.undecided("MOD4", where, "append", c.pos(appendBlk.Instrs[0].Pos()), "the append of a new byte is not controlled by a single condition")
+		return
+	}
+	condSym := s.expr(ctlIf.Cond)
 	var takes []string
 	okApp := true
-	for k := 0; k < 4; k++ {
-		e := a.exits[k]
-		took := e.kind == "edge" && e.to == appendBlk
+	for k := int64(0); k < 4; k++ {
+		v, ok := evalSymInt(condSym, map[string]int64{remKey: k})
+		if !ok {
+			r.undecided("MOD4", where, "append", c.pos(appendBlk.Instrs[0].Pos()), "the condition of the append is not a function of i%4: "+condSym.String())
+			return
+		}
+		took := (v != 0) == (ctl.Succs[0] == appendBlk)
 		takes = append(takes, fmt.Sprint(took))
 		if took != (k == 0) {
 			okApp = false
@@ -615,4 +619,99 @@ func rules2BitTable(c *Ctx, r *Report, itonFn *ssa.Function, itonOf map[int64]in
 		}
 	})
 	r.floor("T-2BIT-append", nApp, 1, "append sites in DNAFrom2Bit")
+}
+
+// evalSymInt evaluates an integer/boolean expression tree under an environment that fixes some subterms (by
+// their rendering); booleans are 0/1. Fails on anything it cannot reduce to a number.
+func evalSymInt(e *Sym, env map[string]int64) (int64, bool) {
+	if v, ok := env[e.String()]; ok {
+		return v, true
+	}
+	if e.Op == "const" {
+		if k, ok := e.Val.(*ssa.Const); ok {
+			if n, ok := cInt(constVal(k)); ok {
+				return n, true
+			}
+		}
+		var n int64
+		if _, err := fmt.Sscanf(e.Leaf, "%d", &n); err == nil {
+			return n, true
+		}
+		return 0, false
+	}
+	if strings.HasPrefix(e.Op, "conv:") && len(e.Args) == 1 {
+		return evalSymInt(e.Args[0], env)
+	}
+	if e.Op == "un:!" && len(e.Args) == 1 {
+		v, ok := evalSymInt(e.Args[0], env)
+		if !ok {
+			return 0, false
+		}
+		if v == 0 {
+			return 1, true
+		}
+		return 0, true
+	}
+	if e.Op == "ite" && len(e.Args) == 3 {
+		cnd, ok := evalSymInt(e.Args[0], env)
+		if !ok {
+			return 0, false
+		}
+		if cnd != 0 {
+			return evalSymInt(e.Args[1], env)
+		}
+		return evalSymInt(e.Args[2], env)
+	}
+	if strings.HasPrefix(e.Op, "bin:") && len(e.Args) == 2 {
+		x, ok1 := evalSymInt(e.Args[0], env)
+		y, ok2 := evalSymInt(e.Args[1], env)
+		if !ok1 || !ok2 {
+			return 0, false
+		}
+		b2i := func(b bool) (int64, bool) {
+			if b {
+				return 1, true
+			}
+			return 0, true
+		}
+		switch strings.TrimPrefix(e.Op, "bin:") {
+		case "+":
+			return x + y, true
+		case "-":
+			return x - y, true
+		case "*":
+			return x * y, true
+		case "/":
+			if y == 0 {
+				return 0, false
+			}
+			return x / y, true
+		case "%":
+			if y == 0 {
+				return 0, false
+			}
+			return x % y, true
+		case "<<":
+			return x << uint(y), true
+		case ">>":
+			return x >> uint(y), true
+		case "&":
+			return x & y, true
+		case "|":
+			return x | y, true
+		case "==":
+			return b2i(x == y)
+		case "!=":
+			return b2i(x != y)
+		case "<":
+			return b2i(x < y)
+		case "<=":
+			return b2i(x <= y)
+		case ">":
+			return b2i(x > y)
+		case ">=":
+			return b2i(x >= y)
+		}
+	}
+	return 0, false
 }
